@@ -313,6 +313,16 @@ struct StackImpl : IStack {
     void copy_assign(const IStack & o) override { f = static_cast<const StackImpl<B> &>(o).f; }
     void move_assign(IStack & o) override { f = std::move(static_cast<StackImpl<B> &>(o).f); }
     std::unique_ptr<IStack> default_constructed() const override { return std::make_unique<StackImpl<B>>(); }
+    std::unique_ptr<IStack> rebuild_cfg_backend() const override
+    {
+        if constexpr (B::is_initial) {
+            return rebuild();
+        } else {
+            typename B::backend_t::owning_data_t inner(f.backend().get_backend());
+            typename B::owning_data_t own(f.backend().get_configuration(), std::move(inner));
+            return std::make_unique<StackImpl<B>>(F(covfie::make_parameter_pack(std::move(own))));
+        }
+    }
     std::unique_ptr<IStack> rebuild_from_backend() const override
     {
         if constexpr (B::is_initial) {
